@@ -88,7 +88,7 @@ def _str_literal_helper(string, *, quote_types):
         possible_quotes.sort(key=lambda q: q[0] == escaped_string[-1])
         # If we're using triple quotes and we'd need to escape a final
         # quote, escape it
-        if possible_quotes[0][0] == escaped_string[-1]:
+        if possible_quotes[0][0] == escaped_string[-1] and not extra:
             assert len(possible_quotes[0]) == 3
             escaped_string = escaped_string[:-1] + "\\" + escaped_string[-1]
     return escaped_string, possible_quotes
